@@ -110,3 +110,12 @@ Definition judge_loc (q : cquirks) (ls0 : lstate) (cs : list cmd) (os : list lob
     [forallb (fun b => b) (lspec_trace [] ls0 cs (lrun ideal ls0 cs))];
     map same [q; noraw q; ideal];
     [forallb (fun c => match c with CSet _ t => conv_domain t | _ => true end) cs] ].
+
+(* ------------------------------------------------------------------ fresh files *)
+(* `init-config` on a path that does not exist, and `init-config --force` on any existing file, write the template with the
+   placeholders of the preset substituted: the text theorem C20_fresh_files talks about.  [preset known; text = gen_content] *)
+Definition judge_fresh (preset : string) (text : list string) : list bool :=
+  match lookup preset presets with
+  | Some reps => [true; lines_eqb text (gen_content reps)]
+  | None => [false; false]
+  end.
